@@ -31,7 +31,10 @@ var callStackCeiling = 2000
 type engine struct {
 	enabledFeatures   api.CoreFeatures
 	compiledFunctions map[wasm.ModuleID][]compiledFunction // guarded by mutex.
-	mux               sync.RWMutex
+	// compiledRefs counts, per entry of compiledFunctions, the CompileModule calls that share it (runtimes
+	// sharing a compilation cache compile the same binary into one entry). Guarded by mutex.
+	compiledRefs map[wasm.ModuleID]int
+	mux          sync.RWMutex
 }
 
 func NewEngine(_ context.Context, enabledFeatures api.CoreFeatures, _ filecache.Cache) wasm.Engine {
@@ -44,6 +47,7 @@ func NewEngine(_ context.Context, enabledFeatures api.CoreFeatures, _ filecache.
 // Close implements the same method as documented on wasm.Engine.
 func (e *engine) Close() (err error) {
 	clear(e.compiledFunctions)
+	clear(e.compiledRefs)
 	return
 }
 
@@ -60,7 +64,23 @@ func (e *engine) DeleteCompiledModule(m *wasm.Module) {
 func (e *engine) deleteCompiledFunctions(module *wasm.Module) {
 	e.mux.Lock()
 	defer e.mux.Unlock()
+	if n := e.compiledRefs[module.ID]; n > 1 {
+		// Another CompiledModule (e.g. of a runtime sharing the compilation cache) still uses the entry.
+		e.compiledRefs[module.ID] = n - 1
+		return
+	}
+	delete(e.compiledRefs, module.ID)
 	delete(e.compiledFunctions, module.ID)
+}
+
+// retainCompiledFunctions records one more user of the compiled functions of the given module.
+func (e *engine) retainCompiledFunctions(module *wasm.Module) {
+	e.mux.Lock()
+	defer e.mux.Unlock()
+	if e.compiledRefs == nil {
+		e.compiledRefs = map[wasm.ModuleID]int{}
+	}
+	e.compiledRefs[module.ID]++
 }
 
 func (e *engine) addCompiledFunctions(module *wasm.Module, fs []compiledFunction) {
@@ -358,6 +378,7 @@ const callFrameStackSize = 0
 // CompileModule implements the same method as documented on wasm.Engine.
 func (e *engine) CompileModule(_ context.Context, module *wasm.Module, listeners []experimental.FunctionListener, ensureTermination bool) error {
 	if _, ok := e.getCompiledFunctions(module); ok { // cache hit!
+		e.retainCompiledFunctions(module)
 		return nil
 	}
 
@@ -396,6 +417,7 @@ func (e *engine) CompileModule(_ context.Context, module *wasm.Module, listeners
 		compiled.index = imported + uint32(i)
 	}
 	e.addCompiledFunctions(module, funcs)
+	e.retainCompiledFunctions(module)
 	return nil
 }
 
